@@ -30,8 +30,15 @@ Definition rt_lt := op_lt I64.
 Definition rt_le := op_le I64.
 Definition rt_eq := op_eq I64.
 Definition rt_ne := op_ne I64.
-Definition rt_idiv (nochecks : bool) := emit_idiv idiv_guard_first base_mode I64 true nochecks.
-Definition rt_imod (nochecks : bool) := emit_imod imod_guard_first base_mode I64 true nochecks.
+(* does the generator consider a run-time variable of a signed type possibly negative?  Attr:is_maybe_negative
+   answers `false` only through the scraped exits; exit 1 needs an unsigned type, exit 2 a compile-time value: neither
+   applies to a run-time int64 variable (whatever the analyzer may have inferred about it - a loop counter, a
+   local initialised from a constant - it can be assigned a negative value later).  An exit the model does not know
+   (a new attribute flag) may apply: the answer is then not known to be `true` and the theorems below break. *)
+Definition rt_maybe_negative : bool :=
+  idiv_helper_if_either_maybe_negative && forallb (fun a => Nat.eqb a 1 || Nat.eqb a 2) maybe_negative_exits.
+Definition rt_idiv (nochecks : bool) := emit_idiv idiv_guard_first base_mode I64 rt_maybe_negative nochecks.
+Definition rt_imod (nochecks : bool) := emit_imod imod_guard_first base_mode I64 rt_maybe_negative nochecks.
 (* the count is an int64 too (an untyped constant is int64) *)
 Definition rt_shl (cnt_comptime : bool) := emit_shl shl_fast_width_left base_mode I64 I64 cnt_comptime.
 Definition rt_shr (cnt_comptime : bool) := emit_shr shr_fast_width_left base_mode I64 I64 cnt_comptime.
